@@ -169,12 +169,16 @@ def u3(rep, w):
             n += 1
             # the Range aggregate
             pl = op_place(t['args'][1])
-            ends = []
+            ends = None
+            names = ()
             for b in f.blocks:
                 for s in b['s']:
                     if s.get('d', {}).get('l') == pl['l'] and s['r'].get('rv') == 'agg':
-                        ends = s['r']['ops']
-            if len(ends) != 2:
+                        adt = (s['r'].get('adt') or '').rsplit('::', 1)[-1]
+                        shape = {'Range': ('start', 'end'), 'RangeTo': ('end',), 'RangeFrom': ('start',), 'RangeFull': ()}.get(adt)
+                        if shape is not None and len(s['r']['ops']) == len(shape):
+                            ends, names = s['r']['ops'], shape
+            if ends is None:
                 r.bad('%s / str slice #%d' % (f.path, n), 'range operand of a str index not recognised')
                 continue
             checks = []      # (block, roots of the checked position)
@@ -184,7 +188,7 @@ def u3(rep, w):
                     a = op_place(t2['args'][1]) if len(t2['args']) > 1 else None
                     if a is not None:
                         checks.append((b2, roots_of(org, a)))
-            for which, e in zip(('start', 'end'), ends):
+            for which, e in zip(names, ends):
                 ep = op_place(e)
                 key = '%s / str slice #%d %s' % (f.path, n, which)
                 if ep is None:
